@@ -170,7 +170,9 @@ Record mstate := {
   origin : smap;      (* outer StateDB: cached committed values *)
   dirty : smap;       (* outer StateDB: pending writes *)
   escrow : Z;         (* base coins held by the erc20 module for this pair *)
-  out : Z             (* amount handed to the bridge (outgoing pool / bridge call) *)
+  out : Z;            (* amount handed to the bridge (outgoing pool / bridge call) *)
+  pend : list Z;      (* amounts of the contract's own unbatched crossChain transfers, latest first (ERC-20 relation set) *)
+  claim : option Z    (* a pending observed SendToFx claim (erc20 target) crediting C: its amount *)
 }.
 
 Definition C : Z := 200.   (* the contract *)
@@ -185,26 +187,39 @@ Definition oread (k : slot) (s : mstate) : Z * mstate :=
     match sget k (origin s) with
     | Some v => (v, s)
     | None => let v := sval k (committed s) in
-              (v, {| committed := committed s; origin := (k, v) :: origin s; dirty := dirty s; escrow := escrow s; out := out s |})
+              (v, {| committed := committed s; origin := (k, v) :: origin s; dirty := dirty s; escrow := escrow s; out := out s; pend := pend s; claim := claim s |})
     end
   end.
 (* outer StateDB write (SetState reads the current value first, which caches the origin) *)
 Definition owrite (k : slot) (v : Z) (s : mstate) : mstate :=
   let (cur, s1) := oread k s in
   if cur =? v then s1
-  else {| committed := committed s1; origin := origin s1; dirty := (k, v) :: dirty s1; escrow := escrow s1; out := out s1 |}.
+  else {| committed := committed s1; origin := origin s1; dirty := (k, v) :: dirty s1; escrow := escrow s1; out := out s1; pend := pend s1; claim := claim s1 |}.
 (* nested StateDB (keeper-level EVM call, committed at once): committed storage only *)
 Definition cwrite (k : slot) (v : Z) (s : mstate) : mstate :=
-  {| committed := (k, v) :: committed s; origin := origin s; dirty := dirty s; escrow := escrow s; out := out s |}.
+  {| committed := (k, v) :: committed s; origin := origin s; dirty := dirty s; escrow := escrow s; out := out s; pend := pend s; claim := claim s |}.
 Definition coins (de dout : Z) (s : mstate) : mstate :=
-  {| committed := committed s; origin := origin s; dirty := dirty s; escrow := escrow s + de; out := out s + dout |}.
+  {| committed := committed s; origin := origin s; dirty := dirty s; escrow := escrow s + de; out := out s + dout; pend := pend s; claim := claim s |}.
 
 Inductive instr :=
 | MTransfer (to x : Z)        (* token.transfer(to, x) by C *)
 | MApprove (sp x : Z)         (* token.approve(sp, x) by C *)
 | MBalanceOf (a : Z)          (* token.balanceOf(a): a read that caches the slot *)
 | MCrossChain (x : Z)         (* precompile crossChain(token, amount+fee = x): running EVM *)
-| MBridgeCall (x : Z).        (* precompile bridgeCall([token],[x]): nested StateDB *)
+| MBridgeCall (x : Z)         (* precompile bridgeCall([token],[x]): nested StateDB (burn) *)
+| MCancel                     (* precompile cancelSendToExternal(latest own transfer): the refund is converted back with
+                                 erc20Keeper.ConvertCoin -> ERC20Mint on a nested StateDB *)
+| MExecClaim.                 (* precompile executeClaim(pending SendToFx, erc20 target, receiver C): BaseCoinToEvm ->
+                                 ConvertCoin -> ERC20Mint on a nested StateDB *)
+
+Definition set_pend (l : list Z) (s : mstate) : mstate :=
+  {| committed := committed s; origin := origin s; dirty := dirty s; escrow := escrow s; out := out s; pend := l; claim := claim s |}.
+Definition set_claim (c : option Z) (s : mstate) : mstate :=
+  {| committed := committed s; origin := origin s; dirty := dirty s; escrow := escrow s; out := out s; pend := pend s; claim := c |}.
+(* FIP20.mint(C, x) by the module on a nested StateDB: committed storage only *)
+Definition nested_mint (x : Z) (s : mstate) : mstate :=
+  let s1 := cwrite STotal (sval STotal (committed s) + x) s in
+  cwrite (SBal C) (sval (SBal C) (committed s1) + x) s1.
 
 (* FIP20._transfer through the outer StateDB *)
 Definition o_transfer (from to x : Z) (s : mstate) : option mstate :=
@@ -235,7 +250,7 @@ Definition mexec (i : instr) (s : mstate) : option mstate :=
           let s5 := owrite (SBal Md) (bm - x) s4 in
           let (tt, s6) := oread STotal s5 in
           let s7 := owrite STotal (tt - x) s6 in
-          if escrow s7 <? x then None else Some (coins (- x) x s7)
+          if escrow s7 <? x then None else Some (set_pend (x :: pend s7) (coins (- x) x s7))
       end
   | MBridgeCall x =>
     (* ConvertERC20NativeCoin on a nested StateDB: burn(C, x) against committed storage, then unescrow and bridge out *)
@@ -245,6 +260,16 @@ Definition mexec (i : instr) (s : mstate) : option mstate :=
       let s1 := cwrite (SBal C) (bc - x) s in
       let s2 := cwrite STotal (sval STotal (committed s1) - x) s1 in
       if escrow s2 <? x then None else Some (coins (- x) x s2)
+  | MCancel =>
+    match pend s with
+    | [] => None
+    | x :: r => Some (set_pend r (coins x (- x) (nested_mint x s)))   (* coins back, escrowed again, tokens minted *)
+    end
+  | MExecClaim =>
+    match claim s with
+    | None => None
+    | Some q => Some (set_claim None (coins q 0 (nested_mint q s)))    (* deposit credited as ERC-20 *)
+    end
   end.
 
 Fixpoint mrun (p : list instr) (s : mstate) : option mstate :=
@@ -260,7 +285,7 @@ Fixpoint commit_slots (d : smap) (seen : list slot) (og : smap) (c : smap) : sma
     else commit_slots r (k :: seen) og ((k, v) :: c)
   end.
 Definition commit (s : mstate) : mstate :=
-  {| committed := commit_slots (dirty s) [] (origin s) (committed s); origin := []; dirty := []; escrow := escrow s; out := out s |}.
+  {| committed := commit_slots (dirty s) [] (origin s) (committed s); origin := []; dirty := []; escrow := escrow s; out := out s; pend := pend s; claim := claim s |}.
 
 (* the whole transaction: all-or-nothing *)
 Definition mtx (p : list instr) (s : mstate) : mstate * bool :=
